@@ -1,0 +1,20 @@
+//go:build verif
+
+// Package verifhook re-exports verification hooks of Burrow's internal packages to the out-of-tree
+// verification harness. It is compiled only with the build tag "verif".
+package verifhook
+
+import (
+	"github.com/linkedin/Burrow/core/internal/evaluator"
+	"github.com/linkedin/Burrow/core/protocol"
+)
+
+// CalculatePartitionStatus is evaluator.calculatePartitionStatus.
+func CalculatePartitionStatus(offsets []*protocol.ConsumerOffset, brokerOffsets []int64, currentLag uint64, timeNow int64, allowedLag uint64) protocol.StatusConstant {
+	return evaluator.VerifCalculatePartitionStatus(offsets, brokerOffsets, currentLag, timeNow, allowedLag)
+}
+
+// EvaluatePartitionStatus is evaluator.evaluatePartitionStatus.
+func EvaluatePartitionStatus(partition *protocol.ConsumerPartition, minimumComplete float32, allowedLag uint64) *protocol.PartitionStatus {
+	return evaluator.VerifEvaluatePartitionStatus(partition, minimumComplete, allowedLag)
+}
